@@ -39,6 +39,7 @@ class Rec:
         self.errors = []
         self._fp_count = {}
         self.proved = {}
+        self.fast = 0  # obligations closed by z3's simplifier normal form + congruence (no search needed)
         self.fp_override = None  # set by a harness when the whole configuration is one known failing input class
 
     # ---- bookkeeping helpers
@@ -64,6 +65,11 @@ class Rec:
     def check(self, ctx, name, goal, fingerprint=None, witness=None, extra=(), timeout_ms=None):
         """One obligation: pc ∧ assumptions ⇒ goal.  Returns True iff unsat (proved on this path)."""
         self.obligations += 1
+        g = getattr(goal, "e", goal)
+        if isinstance(g, z3.ExprRef) and core.fast_valid(g, ctx.implied):
+            self.fast += 1
+            self.proved[name] = self.proved.get(name, 0) + 1
+            return True
         r, m = ctx.prove(goal, extra=extra, **({"timeout_ms": timeout_ms} if timeout_ms else {}))
         if r == "unsat":
             self.proved[name] = self.proved.get(name, 0) + 1
@@ -85,7 +91,18 @@ class Rec:
         items: list of (name, goal, fingerprint).  Returns True iff all were proved.
         """
         items = [(n, getattr(g, "e", g), fp) for n, g, fp in items]
-        if len(items) > 1:
+        rest = []
+        for n, g, fp in items:
+            if isinstance(g, z3.ExprRef) and core.fast_valid(g, ctx.implied):
+                self.obligations += 1
+                self.fast += 1
+                self.proved[n] = self.proved.get(n, 0) + 1
+            else:
+                rest.append((n, g, fp))
+        items = rest
+        if not items:
+            return True
+        if len(items) > 3:
             r, _ = ctx.prove(z3.And([g if not isinstance(g, bool) else z3.BoolVal(g) for _, g, _ in items]), extra=extra)
             if r == "unsat":
                 self.obligations += len(items)
@@ -129,6 +146,7 @@ class Rec:
             "assumptions": sorted(self.assumptions),
             "functions": sorted(self.functions),
             "errors": self.errors,
+            "fast": self.fast,
         }
 
 
@@ -238,7 +256,7 @@ def finish(pid, mod, tier, seed, cfgs, results, t0, extra_assumptions=()):
     known_fp = {k["fingerprint"]: k for k in known if k.get("status") == "known"}
     total = core.Stats()
     agg = {"paths": 0, "branch_queries": 0, "unsat": 0, "sat": 0, "unknown": 0, "solver_s": 0.0}
-    obligations = validated = vacuous = witnessed = 0
+    obligations = validated = vacuous = witnessed = fast = 0
     violations, nonrepro, inconclusive, errors, valfail = [], [], [], [], []
     samples, functions, shims, assumptions, per_cfg, proved = [], set(), set(), set(extra_assumptions), [], {}
     denoms = 0
@@ -251,6 +269,7 @@ def finish(pid, mod, tier, seed, cfgs, results, t0, extra_assumptions=()):
         agg["solver_s"] += st["solver_s"]
         denoms += st["denominators_assumed_nonzero"]
         obligations += r["obligations"]
+        fast += r.get("fast", 0)
         validated += r["validated"]
         vacuous += r["vacuous"]
         witnessed += r["witnessed"]
@@ -323,6 +342,7 @@ def finish(pid, mod, tier, seed, cfgs, results, t0, extra_assumptions=()):
             "obligations": obligations,
             "queries": {"branch_feasibility": agg["branch_queries"], "obligation_unsat": agg["unsat"],
                         "obligation_sat": agg["sat"], "obligation_unknown": agg["unknown"]},
+            "obligations_closed_by_normal_form": fast,
             "obligations_proved_by_name": proved,
             "solver_time_s": round(agg["solver_s"], 2),
             "paths_with_satisfiable_pc": witnessed,
